@@ -5,7 +5,7 @@
      m = TRUE  the function is modelled; v is the result (the documented failure value when
                validation fails - then heap is returned UNCHANGED, the frame condition of C15)
      m = FALSE the function has no functional model here.                                   *)
-EXTENDS BareText
+EXTENDS BareNumText
 
 (***************************** signature table *****************************)
 NoDef == [t |-> "nodef"]
@@ -72,7 +72,25 @@ Signatures ==
       regexEscape      |-> Sig(<<Arg("string")>>, Null),
       urlEncode        |-> Sig(<<Arg("string")>>, Null),
       urlEncodeComponent |-> Sig(<<Arg("string")>>, Null),
-      jsonStringify    |-> Sig(<<Arg("any"), [Arg("number") EXCEPT !.nul = TRUE, !.int = TRUE, !.gte0 = TRUE]>>, Null)
+      jsonStringify    |-> Sig(<<Arg("any"), [Arg("number") EXCEPT !.nul = TRUE, !.int = TRUE, !.lo = IntV(1)]>>, Null),
+      jsonParse        |-> Sig(<<Arg("string")>>, Null),
+      mathRound        |-> Sig(<<Arg("number"), ArgIxDef(0)>>, Null),
+      numberToFixed    |-> Sig(<<Arg("number"), ArgIxDef(2), [Arg("boolean") EXCEPT !.def = Bool(FALSE)]>>, Null),
+      numberParseFloat |-> Sig(<<Arg("string")>>, Null),
+      numberParseInt   |-> Sig(<<Arg("string"), [Arg("number") EXCEPT !.def = IntV(10), !.int = TRUE, !.lo = IntV(2), !.hi = IntV(36)]>>, Null),
+      datetimeYear     |-> Sig(<<Arg("datetime")>>, Null),
+      datetimeMonth    |-> Sig(<<Arg("datetime")>>, Null),
+      datetimeDay      |-> Sig(<<Arg("datetime")>>, Null),
+      datetimeHour     |-> Sig(<<Arg("datetime")>>, Null),
+      datetimeMinute   |-> Sig(<<Arg("datetime")>>, Null),
+      datetimeSecond   |-> Sig(<<Arg("datetime")>>, Null),
+      datetimeMillisecond |-> Sig(<<Arg("datetime")>>, Null),
+      datetimeISOFormat |-> Sig(<<Arg("datetime"), [Arg("boolean") EXCEPT !.def = Bool(FALSE)]>>, Null),
+      datetimeISOParse |-> Sig(<<Arg("string")>>, Null),
+      datetimeNew      |-> Sig(<<[Arg("number") EXCEPT !.int = TRUE, !.lo = IntV(100)], [Arg("number") EXCEPT !.int = TRUE],
+                                 [Arg("number") EXCEPT !.int = TRUE, !.lo = IntV(-10000), !.hi = IntV(10000)],
+                                 [Arg("number") EXCEPT !.int = TRUE, !.def = IntV(0)], [Arg("number") EXCEPT !.int = TRUE, !.def = IntV(0)],
+                                 [Arg("number") EXCEPT !.int = TRUE, !.def = IntV(0)], [Arg("number") EXCEPT !.int = TRUE, !.def = IntV(0)]>>, Null)
     ]
 SigNames == DOMAIN Signatures
 
@@ -205,6 +223,8 @@ RFind(s, sub, end) ==
     LET e == Min2(end, Len(s))
         cands == { p \in 1..(e - Len(sub) + 1) : IsPrefixAt(s, sub, p) } IN
     IF cands = {} THEN -1 ELSE (CHOOSE p \in cands : \A q \in cands : p >= q) - 1
+RECURSIVE DigitsToIntRadix(_, _, _)
+DigitsToIntRadix(ds, radix, acc) == IF ds = <<>> THEN acc ELSE DigitsToIntRadix(Tail(ds), radix, acc * radix + Head(ds))
 RECURSIVE RepeatSeq(_, _)
 RepeatSeq(s, k) == IF k <= 0 THEN <<>> ELSE s \o RepeatSeq(s, k - 1)
 \* str.replace(old, new): left to right, non overlapping; empty old inserts new around every character
@@ -261,6 +281,52 @@ S_typeName(v) ==
       [] v.t = "object" -> <<111, 98, 106, 101, 99, 116>>
       [] v.t = "fn"     -> <<102, 117, 110, 99, 116, 105, 111, 110>>
       [] OTHER          -> <<114, 101, 103, 101, 120>>
+
+(***************************** numbers, JSON and datetimes *****************************)
+\* canonical abstract number of a decimal s * 0.ds * 10^e : exact dyadic when representable, else the decimal itself
+Pow10(k) == CASE k = 0 -> 1 [] k = 1 -> 10 [] k = 2 -> 100 [] k = 3 -> 1000 [] k = 4 -> 10000 [] k = 5 -> 100000
+              [] k = 6 -> 1000000 [] k = 7 -> 10000000 [] k = 8 -> 100000000 [] OTHER -> 1000000000
+DecToNum(sg, ds, e) ==
+    IF ds = <<>> THEN (IF sg < 0 THEN ZeroNeg ELSE IntV(0))
+    ELSE LET k == Len(ds)  nfrac == k - e IN
+         IF k <= 9 /\ nfrac <= 0 /\ e <= 9 THEN Q(sg * DigitsToInt(ds, 0) * Pow10(e - k), 1)
+         ELSE IF k <= 9 /\ nfrac > 0 /\ nfrac <= 9 THEN
+              LET num == DigitsToInt(ds, 0)
+                  den == Pow10(nfrac)
+                  g == GCD(num, den) IN
+              IF IsPow2(den \div g) /\ num \div g <= Bound THEN Q(sg * (num \div g), den \div g)
+              ELSE [t |-> "num", f |-> "d", s |-> sg, ds |-> ds, e |-> e]
+         ELSE IF k <= 15 THEN [t |-> "num", f |-> "d", s |-> sg, ds |-> ds, e |-> e]
+         ELSE AnyFinite                                   \* more digits than a double keeps: some finite number
+\* value of a parsed JSON text (BareJson tree with jnum tokens) as heap values: [v, heap]
+RECURSIVE JsonToValue(_, _), JsonSeqToValues(_, _, _), JsonPairsToValues(_, _, _)
+JsonSeqToValues(s, i, heap) ==
+    IF i > Len(s) THEN [vs |-> <<>>, heap |-> heap]
+    ELSE LET a == JsonToValue(s[i], heap)  r == JsonSeqToValues(s, i + 1, a.heap) IN [vs |-> <<a.v>> \o r.vs, heap |-> r.heap]
+JsonPairsToValues(s, i, heap) ==
+    IF i > Len(s) THEN [vs |-> <<>>, heap |-> heap]
+    ELSE LET a == JsonToValue(s[i].val, heap)  r == JsonPairsToValues(s, i + 1, a.heap) IN
+         [vs |-> <<[key |-> s[i].key, val |-> a.v]>> \o r.vs, heap |-> r.heap]
+JsonToValue(p, heap) ==
+    IF p.t = "jnum" THEN [v |-> DecToNum(p.s, p.ds, p.e), heap |-> heap]
+    ELSE IF p.t = "array" THEN LET r == JsonSeqToValues(p.v, 1, heap) IN
+         [v |-> ARef(Len(r.heap) + 1), heap |-> Append(r.heap, [k |-> "array", v |-> r.vs])]
+    ELSE IF p.t = "object" THEN LET r == JsonPairsToValues(p.v, 1, heap) IN
+         \* a repeated key keeps its first position and its last value
+         [v |-> ORef(Len(r.heap) + 1), heap |-> Append(r.heap, [k |-> "object", v |-> PairsAssign(<<>>, r.vs)])]
+    ELSE [v |-> p, heap |-> heap]
+\* fixed-point text of an exact number with `digits` decimals (only when the expansion is exact and short)
+FixedText(q, digits) ==
+    LET m == Abs(q.n)
+        ip == NatDigits(m \div q.d)
+        fr == FracDigits(m % q.d, q.d, 12)
+    IN IF Len(fr) > digits \/ digits > 20 \/ Len(ip) > 15 THEN NoText
+       ELSE OK((IF q.n < 0 THEN <<cMinus>> ELSE <<>>) \o DigitChars(ip)
+               \o (IF digits > 0 THEN <<cDot>> \o DigitChars(fr \o Zeros(digits - Len(fr))) ELSE <<>>))
+DtParts(v) == LET c == CivilFromDays(v.d) IN
+    [year |-> c.y, month |-> c.m, day |-> c.d, hour |-> v.ms \div 3600000, minute |-> (v.ms \div 60000) % 60,
+     second |-> (v.ms \div 1000) % 60, ms |-> v.ms % 1000]
+SmallInt(v) == IsQ(v) /\ v.d = 1 /\ Abs(v.n) <= 100000
 
 (***************************** the pure functions *****************************)
 \* skip marker: the result cannot be determined inside the exact domain
@@ -356,13 +422,68 @@ LibPureOK(name, a, heap, off) ==     \* a = validated arguments
       [] name = "mathSign" -> R(IF IsQ(a[1]) THEN (IF a[1].n = 0 THEN ZeroAny ELSE IntV(Sgn(a[1].n))) ELSE IF IsD(a[1]) THEN IntV(a[1].s) ELSE AnyNum, heap)
       [] name = "mathFloor" -> R(IF IsQ(a[1]) THEN IntV(FloorQ(a[1])) ELSE AnyNum, heap)
       [] name = "mathCeil" -> R(IF IsQ(a[1]) THEN IntV(-FloorQ(Q(-a[1].n, a[1].d))) ELSE AnyNum, heap)
+      [] name = "mathRound" ->
+            IF ~IsQ(a[1]) THEN SkipR(heap)
+            ELSE IF a[1].d = 1 THEN R(a[1], heap)                                   \* an integer rounds to itself
+            ELSE IF Abs(a[1].n) > 500000000 THEN R(AnyFinite, heap)
+            ELSE IF Ix(a[2]) = 0 THEN                                               \* halves away from zero
+                R(IF a[1].n >= 0 THEN IntV(FloorQ(Q(2 * a[1].n + a[1].d, 2 * a[1].d))) ELSE IntV(-FloorQ(Q(-2 * a[1].n + a[1].d, 2 * a[1].d))), heap)
+            ELSE R(AnyFinite, heap)
+      [] name = "numberToFixed" ->
+            IF ~IsQ(a[1]) \/ Ix(a[2]) > 20 THEN SkipR(heap)
+            ELSE LET t == FixedText(a[1], Ix(a[2])) IN
+                 IF ~t.ok THEN R(AnyVal, heap)                                     \* rounding needed: the digits are not specified here
+                 ELSE IF a[1].n = 0 /\ "z" \in DOMAIN a[1] THEN R(AnyVal, heap)
+                 ELSE R(Str(IF a[3].v THEN Cleanup(t.s) ELSE t.s), heap)
+      [] name = "numberParseFloat" ->
+            LET d == DecOfText(a[1].v) IN
+            IF \E i \in 1..Len(a[1].v) : a[1].v[i] = 95 \/ a[1].v[i] >= 128 THEN R(AnyVal, heap)      \* A25: liberal forms
+            ELSE IF ~d.ok THEN R(Null, heap)
+            ELSE IF d.ds # <<>> /\ (d.e > 305 \/ d.e < -300) THEN R(W({"null", "fin"}), heap)
+            ELSE R(DecToNum(d.s, d.ds, d.e), heap)
+      [] name = "numberParseInt" ->
+            LET i == IntOfText(a[1].v, Ix(a[2])) IN
+            IF (\E k \in 1..Len(a[1].v) : a[1].v[k] = 95 \/ a[1].v[k] >= 128) THEN R(AnyVal, heap)
+            ELSE IF Len(LTrim(a[1].v)) >= 2 /\ LET t == LTrim(a[1].v)  b == IF t[1] \in {cPlus, cMinus} THEN 2 ELSE 1 IN
+                                                  b + 1 <= Len(t) /\ t[b] = cZero /\ t[b + 1] \in {120, 88, 98, 66, 111, 79} THEN R(AnyVal, heap)
+            ELSE IF ~i.ok THEN R(Null, heap)
+            ELSE IF Len(i.ds) > 6 THEN R(AnyFinite, heap)
+            ELSE LET n == DigitsToIntRadix(i.ds, Ix(a[2]), 0) IN IF n > Bound THEN R(AnyFinite, heap) ELSE R(IntV(i.s * n), heap)
+      [] name = "jsonStringify" ->
+            IF a[2].t # "null" THEN R(AnyVal, heap)                  \* indented text: judged by C14 (whitespace is free)
+            ELSE LET t == JsonText(a[1], heap, off) IN IF t.ok THEN R(Str(t.s), heap) ELSE SkipR(heap)
+      [] name = "jsonParse" ->
+            LET r == ParseJson(a[1].v) IN
+            IF ~r.ok THEN
+                \* not JSON: the call fails -> null; texts with the NaN / Infinity tokens some parsers accept are not judged
+                (IF \E i \in 1..Len(a[1].v) : a[1].v[i] \in {78, 73} THEN SkipR(heap) ELSE RF(Null, heap))
+            ELSE LET x == JsonToValue(r.v, heap) IN R(x.v, x.heap)
+      [] name \in {"datetimeYear", "datetimeMonth", "datetimeDay", "datetimeHour", "datetimeMinute", "datetimeSecond", "datetimeMillisecond"} ->
+            LET p == DtParts(a[1]) IN
+            R(IntV(CASE name = "datetimeYear" -> p.year [] name = "datetimeMonth" -> p.month [] name = "datetimeDay" -> p.day
+                     [] name = "datetimeHour" -> p.hour [] name = "datetimeMinute" -> p.minute [] name = "datetimeSecond" -> p.second
+                     [] OTHER -> p.ms), heap)
+      [] name = "datetimeISOFormat" ->
+            IF ~DtTextDefined(a[1]) THEN SkipR(heap)
+            ELSE IF a[2].v THEN R(Str(SubSeq(DtText(a[1].d, 0, 0), 1, 10)), heap)
+            ELSE R(Str(DtText(a[1].d, a[1].ms, off)), heap)
+      [] name = "datetimeISOParse" ->
+            LET p == IsoOf(a[1].v) IN
+            IF ~p.ok THEN (IF a[1].v # <<>> /\ a[1].v[Len(a[1].v)] = 10 THEN R(AnyVal, heap) ELSE R(Null, heap))
+            ELSE IF p.isDate THEN R(Dt(p.d, 0), heap)
+            ELSE LET l == Shift(p.d, p.ms, off - p.off) IN
+                 IF l.d < MinDay + 2 \/ l.d > MaxDay - 2 THEN SkipR(heap) ELSE R(Dt(l.d, l.ms), heap)
+      [] name = "datetimeNew" ->
+            IF \E k \in 1..7 : ~SmallInt(a[k]) THEN SkipR(heap)
+            ELSE LET n == Normalize(a[1].n, a[2].n, a[3].n, a[4].n, a[5].n, a[6].n, a[7].n) IN
+                 IF n.ok THEN R(Dt(n.d, n.ms), heap) ELSE RF(Null, heap)
       [] OTHER -> Unmodelled(heap)
 
 \* identity of immutable values (two equal strings) is not specified
 SystemIsOpen(a) == Len(a) >= 2 /\ a[1].t = a[2].t /\ a[1].t \in {"str", "dt", "fn", "regex"}
 
 PureNames == SigNames \ {"arraySort", "systemGlobalGet", "systemGlobalSet", "systemLog", "systemLogDebug",
-                         "systemPartial", "jsonStringify"}
+                         "systemPartial"}
 
 LibPure(name, args, heap, off) ==
     IF name = "arrayNew" THEN LET r == Alloc("array", args, heap) IN R(r.v, r.heap)
